@@ -135,7 +135,7 @@ func runLookupCase(t *Tracer, m *Meta, r *rand.Rand, c *TrieCase, lo lookupOpts)
 					if d, err := Decode(sl); err == nil {
 						t.Emit(TableEv(d))
 						if len(c.Keys) <= 700 {
-							t.Emit(ProtoEv(sl))
+							t.Emit(ProtoEv(sl, b))
 						}
 						m.class(shapeClass(d))
 					} else {
